@@ -23,7 +23,7 @@ RULE = ("event lists (send / advance / prepare / sleep-as-told / ACK / RST / dum
         "case is non-trivial when the implementation retransmitted at least once and at least one "
         "message reached an outcome (stopped by ACK, NACK RST, NACK TOO_MANY_RETRIES); distinct = "
         "distinct case lines")
-WRAPS = ["coap_ticks", "coap_socket_send", "coap_socket_recv"]
+WRAPS = ["coap_ticks", "coap_socket_send", "coap_socket_recv", "epoll_wait"]
 
 
 # ------------------------------------------------------------------ parsing
@@ -32,7 +32,7 @@ def parse_case(line):
     ns = int(t[1])
     cfgs = [tuple(int(x) for x in t[2 + 6 * k: 8 + 6 * k]) for k in range(ns)]
     i = 2 + 6 * ns
-    ar = {"A": 1, "W": 1, "S": 6, "T": 0, "K": 2, "P": 3, "R": 2, "N": 4, "X": 3, "Q": 0}
+    ar = {"A": 1, "W": 1, "S": 6, "T": 0, "K": 2, "P": 3, "R": 2, "N": 4, "D": 2, "I": 1, "X": 2, "Q": 0}
     ev = []
     while i < len(t):
         n = ar.get(t[i])
@@ -106,14 +106,51 @@ def bounds_ms(cfg):
 
 
 def setting_representable(cfg):
-    return (64 * cfg[0] + (64 * cfg[1] + 500) // 1000 < 65536 and
-            64 * cfg[2] + (64 * cfg[3] + 500) // 1000 < 65536)
+    """what the setters accept (uint16 integer part > 0, fraction < 1000): C06_timeout_range's hypothesis"""
+    return 0 < cfg[0] < 65536 and 0 <= cfg[1] < 1000 and 0 < cfg[2] < 65536 and 0 <= cfg[3] < 1000
+
+
+def readback_cfgs(line, out):
+    """The settings in force are what the library's getters report after the setters ran (the
+    driver prints them first: 0.cfg:k:...).  A value the setters refuse (integer part 0, fraction
+    >= 1000, max_retransmit 0) leaves the library's default; neither the defaults nor the setters'
+    acceptance rules are C06's business, so model and oracle take the read-back values."""
+    cfgs, _ = parse_case(line)
+    got = {}
+    for w in out.split():
+        m = re.match(r"^0\.cfg:(\d+):(\d+):(\d+):(\d+):(\d+):(\d+)$", w)
+        if m:
+            got[int(m.group(1))] = tuple(int(x) for x in m.groups()[1:])
+    if len(got) != len(cfgs):
+        return None
+    return [got[k] + (cfgs[k][5],) for k in range(len(cfgs))]
+
+
+def model_line(line, out):
+    """the case line with the session settings replaced by the read-back values"""
+    rb = readback_cfgs(line, out)
+    if rb is None:
+        return line
+    t = line.split()
+    for k, c in enumerate(rb):
+        t[2 + 6 * k: 8 + 6 * k] = [str(x) for x in c]
+    return " ".join(t)
+
+
+def run_pair(model, drv, lines):
+    """C first, then the model on the settings the library says are in force"""
+    oc, crashes = vlib.run_lines_robust(drv, lines)
+    ml = [model_line(l, o) if l.startswith("c06 ") else l for l, o in zip(lines, oc)]
+    om, _ = vlib.run_lines_robust(model, ml)
+    return om, oc, crashes
 
 
 def impl_oracle(line, out):
     """Evaluate the property on what the implementation did.  Returns (problems, facts)."""
     cfgs, ev = parse_case(line)
+    cfgs = readback_cfgs(line, out) or cfgs
     items = parse_items(out)
+    items = [i for i in items if i[1] != "cfg"]
     ns = len(cfgs)
     problems = []
     by_ev = {}
@@ -122,9 +159,11 @@ def impl_oracle(line, out):
         if it[1] == "?":
             problems.append("unparsable item %s" % it[2][0])
     live = {}       # (sess, mid) -> list of records
+    fog = set()     # keys (sess, mid) whose messages the trace can no longer tell apart
     closed = []
     relaxed = False
-    stats = {"retx": 0, "acked": 0, "rst": 0, "giveup": 0, "sent": 0}
+    stats = {"retx": 0, "acked": 0, "rst": 0, "giveup": 0, "sent": 0, "disc": 0}
+    dead = set()
     now = 0
     last_tick = None
     last_wait = 0
@@ -152,66 +191,9 @@ def impl_oracle(line, out):
         elif rec["T"] != T:
             problems.append("mid %d: timeout changed from %d to %d" % (rec["mid"], rec["T"], T))
 
-    for ei, e in enumerate(ev):
-        k = e[0]
-        its = by_ev.get(ei, [])
-        if k == "A":
-            now += int(e[1])
-            continue
-        if k == "W":
-            if last_tick is not None:
-                now = max(now, last_tick + last_wait + int(e[1]))
-            continue
-        fired = its
-        if k == "S":
-            s, mid, code = int(e[1]) % ns, int(e[2]), int(e[3])
-            stats["sent"] += 1
-            if len(its) != 2 or its[0][1] != "tx" or its[1][1] != "s":
-                problems.append("coap_send of mid %d: expected one transmission and a result, got %s" %
-                                (mid, [i[1] for i in its]))
-                continue
-            t, ss, b = int(its[0][2][0]), int(its[0][2][1]), its[0][2][2]
-            if t != now or ss != s:
-                problems.append("first transmission of mid %d at %d on %d, expected %d on %d" % (mid, t, ss, now, s))
-            if int(its[1][2][0]) != mid:
-                problems.append("coap_send returned %s for mid %d" % (its[1][2][0], mid))
-            rec = {"sess": s, "mid": mid, "bytes": b, "tx": [t], "cfg": cfgs[s], "T": None,
-                   "code": code, "out": None, "taint": False}
-            l = live.setdefault((s, mid), [])
-            l.append(rec)
-            if len(l) > 1:
-                for x in l:
-                    x["taint"] = True
-            continue
-        if k in ("K", "P", "R", "N", "X"):
-            s, mid = int(e[1]) % ns, int(e[2])
-            l = live.get((s, mid), [])
-            if k == "K" and any(is_request(r["code"]) for r in l):
-                relaxed = True
-            if k in ("K", "P") and l:
-                r = l.pop(0)       # (if several are pending it is not known which one: all are tainted)
-                r["out"] = "acked"
-                closed.append(r)
-                stats["acked"] += 1
-            if k == "R":
-                nk = [i for i in its if i[1] == "nk" and int(i[2][2]) == 2]
-                fired = [i for i in its if not (i[1] == "nk" and int(i[2][2]) == 2)]
-                if len(nk) != 1:
-                    problems.append("RST for mid %d: %d NACK(RST) calls" % (mid, len(nk)))
-                else:
-                    t, ss, _, m2, has = [int(x) for x in nk[0][2]]
-                    if (t, ss, m2) != (now, s, mid):
-                        problems.append("NACK(RST) reports %s, expected t=%d sess=%d mid=%d" % (nk[0][2], now, s, mid))
-                    if bool(has) != bool(l):
-                        problems.append("NACK(RST) for mid %d: sent PDU %s but message %s" %
-                                        (mid, "given" if has else "missing", "pending" if l else "not pending"))
-                if l:
-                    r = l.pop(0)
-                    r["out"] = "rst"
-                    closed.append(r)
-                    stats["rst"] += 1
-        # everything else in this event comes from the retransmit loop of a prepare call
-        for it in fired:
+    def process_fired(fired_items):
+        nonlocal last_tick, last_wait
+        for it in fired_items:
             kind, f = it[1], it[2]
             if kind == "tx":
                 t, s2, b = int(f[0]), int(f[1]), f[2]
@@ -219,9 +201,18 @@ def impl_oracle(line, out):
                 if t != now:
                     problems.append("transmission stamped %d during an event at %d" % (t, now))
                 r = rec_for(s2, mid2) if mid2 is not None else None
+                if (s2, mid2) in fog:
+                    stats["retx"] += 1
+                    continue
                 if mid2 is not None and not live.get((s2, mid2)):
                     problems.append("mid %d on session %d transmitted although it is not pending "
                                     "(after its outcome, or never accepted)" % (mid2, s2))
+                    continue
+                if r is not None and not r["tx"]:
+                    # a message that waited for a slot goes out for the first time
+                    r["bytes"] = b
+                    r["tx"].append(t)
+                    stats["released"] = stats.get("released", 0) + 1
                     continue
                 stats["retx"] += 1
                 if r is None:
@@ -230,6 +221,10 @@ def impl_oracle(line, out):
                     problems.append("retransmission of mid %d is not byte-identical" % r["mid"])
                 if r["T"] is not None and t < r["tx"][-1] + (r["T"] << (len(r["tx"]) - 1)):
                     problems.append("mid %d retransmitted at %d, before its deadline" % (r["mid"], t))
+                lo_ms = bounds_ms(r["cfg"])[0]
+                if setting_representable(r["cfg"]) and t - r["tx"][-1] < (lo_ms << (len(r["tx"]) - 1)):
+                    problems.append("mid %d retransmitted %d ms after transmission %d: less than ACK_TIMEOUT * 2^%d" %
+                                    (r["mid"], t - r["tx"][-1], len(r["tx"]) - 1, len(r["tx"]) - 1))
                 r["tx"].append(t)
                 if len(r["tx"]) > r["cfg"][4] + 1:
                     problems.append("mid %d transmitted %d times, MAX_RETRANSMIT=%d" %
@@ -240,6 +235,9 @@ def impl_oracle(line, out):
                     problems.append("unexpected NACK %s" % f)
                     continue
                 l = live.get((s2, mid2), [])
+                if (s2, mid2) in fog:
+                    stats["giveup"] += 1
+                    continue
                 if not l:
                     problems.append("NACK TOO_MANY_RETRIES for mid %d which is not pending" % mid2)
                     continue
@@ -258,7 +256,9 @@ def impl_oracle(line, out):
                 last_tick, last_wait = t, w
                 if t != now:
                     problems.append("prepare stamped %d at %d" % (t, now))
-                npend = sum(len(v) for v in live.values())
+                npend = sum(1 for v in live.values() for r in v if r["tx"])
+                if fog:
+                    continue
                 if hd < 0:
                     if npend:
                         problems.append("nothing queued at %d although %d message(s) are pending" % (t, npend))
@@ -275,20 +275,20 @@ def impl_oracle(line, out):
                         problems.append("reported wait %d, earliest deadline in %d" % (w, hd - t))
                     if w == 0 and (hd - t) % (1 << 32) != 0:
                         problems.append("reported wait 0 (= nothing pending) with a deadline in %d" % (hd - t))
-                    pend = [r for v in live.values() for r in v]
+                    pend = [r for v in live.values() for r in v if r["tx"]]
                     if len(pend) == 1 and not pend[0]["taint"]:
                         check_T(pend[0], t, hd, len(pend[0]["tx"]) - 1)
             elif kind == "q":
                 t = int(f[0])
                 ents = [] if f[1] == "-" else [tuple(int(x) for x in z.split("/")) for z in f[1].split(",")]
-                want = sorted((r["sess"], r["mid"]) for v in live.values() for r in v)
-                got = sorted((s2, m2) for (_, s2, m2, _) in ents)
+                want = sorted((r["sess"], r["mid"]) for v in live.values() for r in v if r["tx"])
+                got = sorted((s2, m2) for (_, s2, m2, _) in ents if (s2, m2) not in fog)
                 if want != got:
                     problems.append("queue holds %s, pending messages are %s" % (got, want))
                 if [d for (d, _, _, _) in ents] != sorted(d for (d, _, _, _) in ents):
                     problems.append("queue not ordered by deadline: %s" % ents)
                 for (d, s2, m2, cnt) in ents:
-                    r = rec_for(s2, m2)
+                    r = rec_for(s2, m2) if (s2, m2) not in fog else None
                     if r is None:
                         continue
                     if cnt != len(r["tx"]) - 1:
@@ -297,6 +297,187 @@ def impl_oracle(line, out):
                         check_T(r, t, d, cnt)
             elif kind == "s":
                 problems.append("stray coap_send result")
+
+    for ei, e in enumerate(ev):
+        k = e[0]
+        its = by_ev.get(ei, [])
+        if k == "A":
+            now += int(e[1])
+            continue
+        if k == "W":
+            if last_tick is not None:
+                now = max(now, last_tick + last_wait + int(e[1]))
+            continue
+        fired = its
+        if k == "I":
+            # coap_io_process: [fired by the first prepare] ep [fired after the sleep] io
+            tmo = int(e[1])
+            ep = [j for j, it in enumerate(its) if it[1] == "ep"]
+            io = [j for j, it in enumerate(its) if it[1] == "io"]
+            if len(ep) != 1 or len(io) != 1 or io[0] != len(its) - 1:
+                problems.append("coap_io_process: expected one epoll_wait and a result, got %s" % [i[1] for i in its])
+                continue
+            t_ep, et = int(its[ep[0]][2][0]), int(its[ep[0]][2][1])
+            if t_ep != now:
+                problems.append("epoll_wait stamped %d at %d" % (t_ep, now))
+            process_fired(its[:ep[0]])
+            pend = [r for v in live.values() for r in v if r["tx"]]
+            dl = [r["tx"][-1] + (r["T"] << (len(r["tx"]) - 1)) for r in pend if r["T"] is not None]
+            if et < -1:
+                problems.append("epoll_wait timeout %d" % et)
+            if et == -1 and (pend or fog) and tmo == 0 and not fog:
+                problems.append("coap_io_process sleeps for ever with %d message(s) pending" % len(pend))
+            if et == -1 and tmo != 0:
+                problems.append("coap_io_process(%d) sleeps for ever" % tmo)
+            if tmo == 4294967295 and et != 0:
+                problems.append("COAP_IO_NO_WAIT but epoll_wait timeout %d" % et)
+            if dl and et > min(dl) - now and not fog:
+                problems.append("coap_io_process sleeps %d ms, earliest deadline in %d ms" % (et, min(dl) - now))
+            if 0 < tmo < 4294967295 and et > tmo:
+                problems.append("coap_io_process(%d) sleeps %d ms" % (tmo, et))
+            if et > 0:
+                now += et
+            process_fired(its[ep[0] + 1:io[0]])
+            t_io, ret = int(its[io[0]][2][0]), int(its[io[0]][2][1])
+            if t_io != now or ret != max(et, 0):
+                problems.append("coap_io_process returned %d at %d, slept %d until %d" % (ret, t_io, max(et, 0), now))
+            if not fog:
+                for r in [r for v in live.values() for r in v if r["tx"]]:
+                    if r["T"] is not None and r["tx"][-1] + (r["T"] << (len(r["tx"]) - 1)) <= now:
+                        problems.append("coap_io_process left mid %d behind although it was due" % r["mid"])
+            continue
+        if k in ("S", "K", "P", "R", "N", "X") and int(e[1]) % ns in dead:
+            if its:
+                problems.append("event on a disconnected session produced %s" % [i[1] for i in its])
+            continue
+        if k == "D":
+            # coap_session_disconnected: every pending message of the session ends with exactly one
+            # NACK call carrying the given reason; nothing pending: one call without PDU, mid 0
+            s, reason = int(e[1]) % ns, int(e[2])
+            if s in dead:
+                continue
+            dead.add(s)
+            foggy = any(key[0] == s for key in fog)
+            want = sorted(r["mid"] for key, v in live.items() if key[0] == s for r in v)
+            got = []
+            for it in its:
+                if it[1] != "nk":
+                    problems.append("disconnect produced %s" % it[1])
+                    continue
+                t, s2, r2, m2, has = [int(x) for x in it[2]]
+                if (t, s2, r2) != (now, s, reason):
+                    problems.append("disconnect NACK reports %s, expected t=%d sess=%d reason=%d" % (it[2], now, s, reason))
+                if has:
+                    got.append(m2)
+                elif want or m2 != 0:
+                    problems.append("disconnect: NACK without PDU (mid %d) although %s pending" % (m2, want))
+            if not foggy:
+                if sorted(got) != want:
+                    problems.append("disconnect of session %d: NACK calls for mids %s, pending were %s" % (s, sorted(got), want))
+                if not want and len(its) != 1:
+                    problems.append("disconnect of an idle session: %d NACK calls" % len(its))
+            for key in [key for key in live if key[0] == s]:
+                for r in live.pop(key):
+                    r["out"] = "disc"
+                    closed.append(r)
+                    stats["disc"] += 1
+            fog = {key for key in fog if key[0] != s}
+            continue
+        if k == "S":
+            s, mid, code = int(e[1]) % ns, int(e[2]), int(e[3])
+            stats["sent"] += 1
+            if len(its) == 1 and its[0][1] == "s":
+                # no free NSTART slot: the message waits (or is refused: result -1); C08 decides
+                # whether that is right - here only what happens to it once it goes out
+                if int(its[0][2][0]) == -1:
+                    stats["sent"] -= 1
+                    continue
+                if int(its[0][2][0]) != mid:
+                    problems.append("coap_send returned %s for mid %d" % (its[0][2][0], mid))
+                rec = {"sess": s, "mid": mid, "bytes": None, "tx": [], "cfg": cfgs[s], "T": None,
+                       "code": code, "out": None, "taint": False, "tok": e[4].lower()}
+                stats["held"] = stats.get("held", 0) + 1
+                if (s, mid) in fog:
+                    continue
+                l = live.setdefault((s, mid), [])
+                l.append(rec)
+                if len(l) > 1:
+                    fog.add((s, mid))
+                    live.pop((s, mid), None)
+                continue
+            if len(its) != 2 or its[0][1] != "tx" or its[1][1] != "s":
+                problems.append("coap_send of mid %d: expected one transmission and a result, got %s" %
+                                (mid, [i[1] for i in its]))
+                continue
+            t, ss, b = int(its[0][2][0]), int(its[0][2][1]), its[0][2][2]
+            if t != now or ss != s:
+                problems.append("first transmission of mid %d at %d on %d, expected %d on %d" % (mid, t, ss, now, s))
+            if int(its[1][2][0]) != mid:
+                problems.append("coap_send returned %s for mid %d" % (its[1][2][0], mid))
+            rec = {"sess": s, "mid": mid, "bytes": b, "tx": [t], "cfg": cfgs[s], "T": None,
+                   "code": code, "out": None, "taint": False, "tok": e[4].lower()}
+            if (s, mid) in fog:
+                continue
+            l = live.setdefault((s, mid), [])
+            l.append(rec)
+            if len(l) > 1:
+                # a second pending message with the same session and mid (application error; the
+                # machine copes, C06_one_outcome is per message): the trace cannot tell the two
+                # apart, nothing is claimed about this key from here on
+                fog.add((s, mid))
+                live.pop((s, mid), None)
+            continue
+        if k in ("K", "P", "R", "N", "X"):
+            s, mid = int(e[1]) % ns, int(e[2])
+            l = live.get((s, mid), [])
+            if k in ("K", "P", "R", "X") and len(l) == 1 and not l[0]["tx"]:
+                l = []          # still waiting for a slot: not in the send queue, cannot be answered
+            if k == "K" and any(is_request(r["code"]) for r in l):
+                relaxed = True
+            if k in ("K", "P", "R", "X") and (len(l) > 1 or (s, mid) in fog):
+                # several pending messages with this session and mid: the first one IN QUEUE ORDER
+                # goes and the trace does not say which that is - from here on nothing is claimed
+                # about the messages with this key
+                fog.add((s, mid))
+                live.pop((s, mid), None)
+                l = []
+            if k == "X" and its:
+                problems.append("coap_delete_node produced %s" % [i[1] for i in its])
+            if k in ("K", "P", "X") and l:   # (N is handled by token below; X: the node is simply deleted)
+                r = l.pop(0)
+                r["out"] = "acked"
+                closed.append(r)
+                stats["acked"] += 1
+            if k == "N":
+                # a NON response: implicit acknowledgement of every pending message of the session
+                # with its token (RFC 7252 5.2.2); its mid is the peer's and must not matter
+                tok = e[4].lower()
+                for key in list(live):
+                    if key[0] != s:
+                        continue
+                    for r in [x for x in live[key] if x["tok"] == tok and x["tx"]]:
+                        live[key].remove(r)
+                        r["out"] = "acked"
+                        closed.append(r)
+                        stats["acked"] += 1
+            if k == "R":
+                nk = [i for i in its if i[1] == "nk" and int(i[2][2]) == 2]
+                fired = [i for i in its if not (i[1] == "nk" and int(i[2][2]) == 2)]
+                if len(nk) != 1:
+                    problems.append("RST for mid %d: %d NACK(RST) calls" % (mid, len(nk)))
+                else:
+                    t, ss, _, m2, has = [int(x) for x in nk[0][2]]
+                    if (t, ss, m2) != (now, s, mid):
+                        problems.append("NACK(RST) reports %s, expected t=%d sess=%d mid=%d" % (nk[0][2], now, s, mid))
+                    if (s, mid) not in fog and bool(has) != bool(l):
+                        problems.append("NACK(RST) for mid %d: sent PDU %s but message %s" %
+                                        (mid, "given" if has else "missing", "pending" if l else "not pending"))
+                if l:
+                    r = l.pop(0)
+                    r["out"] = "rst"
+                    closed.append(r)
+                    stats["rst"] += 1
+        process_fired(fired)
         # a head deadline seen in a wait item also reveals T of the head message
     facts = dict(stats)
     facts["pending_at_end"] = sum(len(v) for v in live.values())
@@ -379,13 +560,19 @@ def main(run):
         "ocaml/d_sched.ml glue: event parsing, 'W' (sleep as long as the last prepare said)"]
     run.assumptions = [
         "timing is claimed at the resolution of the code's Q.6 fixed point (1/64 s per setting) and of one tick (1 ms)",
-        "settings representable in 16-bit Q.6 (integer part <= 1022; above: known finding K06-1)",
         "max_retransmit <= 255 in the theorems (8-bit retransmit_cnt); no wrap of the 64-bit tick counter",
         "only the send queue's timers enter the reported wait (no observe/async/block/DTLS/keep-alive timers); "
         "after an empty ACK to a request the library's own receive timer is compared one-sidedly",
-        "NSTART hold-back is C08's: drivers keep at most NSTART CONs per session in flight",
+        "NSTART: hold-back and release are modelled for the released message's timer; order/fairness of slots is C08's",
         "allocation never fails (C18)"]
     run.prove()
+    if run.tier != "quick" and getattr(run, "proof_broken", None) is None:
+        # independent re-check of the compiled property file and everything it depends on
+        rc, out = vlib.sh(["coqchk", "-silent", "-o", "-Q", vlib.COQ, "LibcoapV", "LibcoapV.Properties_C06"],
+                          cwd=vlib.COQ, timeout=1500, check=False)
+        run.cov["coqchk"] = {"rc": rc, "tail": out.strip().splitlines()[-6:]}
+        if rc != 0:
+            run.violation("coqchk rejects Properties_C06.vo", out[-4000:], tag="coqchk", no_input=True)
     model = vlib.build_model()
     drv = vlib.build_driver("h_sched", ["h_sched.c"], wraps=WRAPS)
     r = tie.rng_for(run, "c06")
@@ -400,10 +587,10 @@ def main(run):
     cases = [(None, ln) for ln in corpus if ln.startswith("c06 ")]
     leaf_corpus = [ln for ln in corpus if not ln.startswith("c06 ")]
     gens = []
-    n_sched = 150 if quick else 3000
-    n_multi = 900 if quick else 25000
-    n_big = 60 if quick else 2500
-    n_ns1 = 150 if quick else 4000
+    n_sched = 300 if quick else 6000
+    n_multi = 2500 if quick else 90000
+    n_big = 150 if quick else 8000
+    n_ns1 = 400 if quick else 12000
     n_long = 12 if quick else 200
     for _ in range(n_sched):
         gens.append(G.gen_schedule_case(r))
@@ -423,15 +610,23 @@ def main(run):
         gens.append(G.gen_nstart1_case(r))
     for _ in range(n_long):
         gens.append(G.gen_long_case(r))
+    for _ in range(400 if quick else 15000):
+        gens.append(G.gen_cancel_case(r))
+    for _ in range(300 if quick else 10000):
+        gens.append(G.gen_ioloop_case(r))
+    for _ in range(700 if quick else 25000):
+        gens.append(G.gen_held_case(r))
     for _ in range(40 if quick else 1000):
         gens.append(G.gen_separate_case(r))
     for c in gens:
         cases.append((c, G.line_of(c)))
     lines = [c[1] for c in cases]
-    om, oc, crashes = tie.run_both(model, drv, lines)
+    om, oc, crashes = run_pair(model, drv, lines)
     run.cov["driver_crashes"] = len(crashes)
     nbad = 0
-    agg = {"retx": 0, "acked": 0, "rst": 0, "giveup": 0, "sent": 0, "pending_at_end": 0}
+    nkind = {}
+    oracle_self = []
+    agg = {"retx": 0, "acked": 0, "rst": 0, "giveup": 0, "sent": 0, "disc": 0, "pending_at_end": 0}
     for i, ln in enumerate(lines):
         mo, co = om[i], oc[i]
         c = cases[i][0]
@@ -439,7 +634,8 @@ def main(run):
         probs, facts = impl_oracle(ln, co) if not co.startswith(("CRASH", "ERROR", "<")) else (["driver: " + co[:80]], {})
         for k in agg:
             agg[k] += facts.get(k, 0)
-        nontriv = facts.get("retx", 0) >= 1 and (facts.get("acked", 0) + facts.get("rst", 0) + facts.get("giveup", 0)) >= 1
+        nontriv = facts.get("retx", 0) >= 1 and (facts.get("acked", 0) + facts.get("rst", 0) +
+                                                 facts.get("giveup", 0) + facts.get("disc", 0)) >= 1
         run.count(ln, nontriv)
         run.hist("kind", kind)
         run.hist("sessions", ln.split()[1])
@@ -449,6 +645,15 @@ def main(run):
             run.sample({"case": ln[:400], "impl": co[:400]})
         bad = None
         no_input = False
+        if probs and mo == co:
+            # The implementation did exactly what the model does on this case, and for the model
+            # every clause the oracle evaluates is a theorem (C06_one_outcome, C06_spacing,
+            # C06_deadline_law, C06_wait_sound, C06_timeout_range): a complaint here is a defect of
+            # the oracle, not of libcoap.  It is recorded, never reported as a violation.
+            oracle_self.append({"case": ln[:3000], "oracle": probs[0]})
+            vlib.log("note (C06): oracle complains about a trace that equals the model's: %s [%s]" %
+                     (probs[0], ln[:120]))
+            probs = []
         if probs:
             bad = "property fails on the implementation: " + probs[0]
         elif co.startswith("CRASH"):
@@ -460,24 +665,47 @@ def main(run):
                 no_input = True
         if bad:
             nbad += 1
-            if nbad <= 3:
+            kindbad = "oracle" if probs or co.startswith("CRASH") else "tie"
+            nkind[kindbad] = nkind.get(kindbad, 0) + 1
+            if nkind[kindbad] <= 3:
                 small = ln
                 if c is not None:
                     def still(prefix, cand):
                         c2 = {"cfgs": c["cfgs"], "ev": cand}
                         l2 = G.line_of(c2)
-                        a, b, _ = tie.run_both(model, drv, [l2])
+                        a, b, _ = run_pair(model, drv, [l2])
                         if probs:
                             return bool(impl_oracle(l2, b[0])[0]) if not b[0].startswith(("CRASH", "ERROR")) else True
                         return compare(l2, a[0], b[0]) is not None
                     ev2 = tie.shrink_ops(None, c["ev"], still, max_steps=250)
                     small = G.line_of({"cfgs": c["cfgs"], "ev": ev2})
-                a, b, _ = tie.run_both(model, drv, [small])
+                a, b, _ = run_pair(model, drv, [small])
                 p2 = impl_oracle(small, b[0])[0] if not b[0].startswith(("CRASH", "ERROR")) else ["crash"]
                 run.violation(bad, "case: %s\nmodel: %s\nimpl : %s\noracle on impl: %s\n(original case: %s)\n" %
                               (small, a[0], b[0], p2 or "holds", ln), tag="tie%d" % nbad,
                               no_input=no_input and not p2)
+    # ---- thorough: the same lines through an ASan+UBSan build of library and driver
+    if not quick:
+        try:
+            adrv = vlib.build_driver("h_sched", ["h_sched.c"], variant="asan", wraps=WRAPS)
+            sub = lines[:len(corpus)] + lines[len(corpus)::7][:4000]
+            ao, acr = vlib.run_lines_robust(adrv, sub, timeout=1500,
+                                            env={"ASAN_OPTIONS": "detect_leaks=0:abort_on_error=1",
+                                                 "UBSAN_OPTIONS": "halt_on_error=1"})
+            base = dict(zip(lines, oc))
+            nas = 0
+            for ln, o in zip(sub, ao):
+                if o != base.get(ln):
+                    nas += 1
+                    if nas <= 2:
+                        run.violation("sanitizer build behaves differently or traps: %s" % o[:100],
+                                      "case: %s\nasan: %s\nbase: %s\nstderr: %s\n" %
+                                      (ln, o, base.get(ln), acr[0][2] if acr else ""), tag="asan%d" % nas)
+            run.cov["asan"] = {"cases": len(sub), "differences": nas, "crashes": len(acr)}
+        except vlib.BuildError as e:
+            run.cov["asan"] = {"skipped": str(e)[:200]}
     run.cov["impl_totals"] = agg
+    run.cov["oracle_self_check_failures"] = oracle_self[:5]
     run.cov["drop_subset_cases"] = len(drops)
 
     # ---- leaf sweep 1: coap_calc_timeout, all 256 bytes x settings grid
@@ -492,20 +720,14 @@ def main(run):
             probs, rep = calcrow_oracle(ln, b)
             n_in += rep
             n_out += (not rep)
-            if probs and rep:
+            if probs and not rep and kf_wrap:
+                run.known(kf_wrap, ln)
+            elif probs:
                 sbad += 1
-                run.violation("initial timeout out of range: " + probs[0],
-                              "case: %s\nimpl : %s\nmodel: %s\n" % (ln, b, a), tag="calc%d" % sbad)
-            elif probs and not rep:
-                if kf_wrap:
-                    run.known(kf_wrap, ln)
-                else:
-                    sbad += 1
+                if sbad <= 3:
                     run.violation("initial timeout out of range: " + probs[0],
                                   "case: %s\nimpl : %s\nmodel: %s\n" % (ln, b, a), tag="calc%d" % sbad)
-        if a != b and (rep or not kf_wrap):
-            # (outside the representable settings the property already fails - K06-1 - and the
-            # theorems say nothing: only the oracle above looks at those rows)
+        if a != b:
             sbad += 1
             if sbad <= 3:
                 run.violation("coap_calc_timeout differs from the proved model (leaf sweep)",
